@@ -73,9 +73,24 @@ type FuncV struct {
 type TupleV []Value
 
 type ArrayV struct {
-	A    *Term // Array BV64 -> leaf sort
+	A    *Term // Array BV64 -> leaf sort (single-leaf element types)
 	N    int64
 	Elem types.Type
+	Vals []Value // small arrays of multi-leaf elements: one value per element (constant indices only)
+}
+
+func multiLeafArray(u *types.Array) bool {
+	if u.Len() == 0 || u.Len() > 16 {
+		return false
+	}
+	if _, ok := scalarSort(u.Elem()); ok {
+		return false
+	}
+	switch u.Elem().Underlying().(type) {
+	case *types.Pointer, *types.Map, *types.Interface, *types.Signature:
+		return false
+	}
+	return true
 }
 
 type Cell struct {
@@ -142,10 +157,53 @@ func isFloat(t types.Type) bool {
 	return ok && b.Info()&types.IsFloat != 0
 }
 
+var opaqueCache = map[string]int{} // 0 unknown, 1 in progress / transparent, 2 opaque
+
+// opaqueStruct: library struct types whose fields cannot be modelled (runtime.Frame, ...) are single opaque values.
+func opaqueStruct(t types.Type) bool {
+	n, ok := t.(*types.Named)
+	if !ok || n.Obj().Pkg() == nil {
+		return false
+	}
+	if _, isStruct := n.Underlying().(*types.Struct); !isStruct {
+		return false
+	}
+	pp := n.Obj().Pkg().Path()
+	if strings.HasPrefix(pp, "golang.org/x/telemetry") || pp == "sync" || pp == "sync/atomic" {
+		return false
+	}
+	k := pp + "." + n.Obj().Name()
+	switch opaqueCache[k] {
+	case 1:
+		return false
+	case 2:
+		return true
+	}
+	opaqueCache[k] = 1
+	ok2 := func() (ok bool) {
+		defer func() {
+			if r := recover(); r != nil {
+				ok = false
+			}
+		}()
+		leavesOf(t)
+		return true
+	}()
+	if ok2 {
+		opaqueCache[k] = 1
+		return false
+	}
+	opaqueCache[k] = 2
+	return true
+}
+
 // scalarSort returns the SMT sort if t is represented by a single term.
 func scalarSort(t types.Type) (string, bool) {
 	if isTimeType(t) {
 		return STime, true
+	}
+	if opaqueStruct(t) {
+		return SRef, true
 	}
 	switch u := t.Underlying().(type) {
 	case *types.Basic:
@@ -219,11 +277,18 @@ func leavesOf(t types.Type) []leafSpec {
 			if u.Len() == 0 {
 				return
 			}
+			if multiLeafArray(u) {
+				for i := int64(0); i < u.Len(); i++ {
+					rec(u.Elem(), fmt.Sprintf("%s[%d]", path, i), depth+1)
+				}
+				return
+			}
 			es, ok := scalarSort(u.Elem())
 			if !ok {
-				if _, isPtr := u.Elem().Underlying().(*types.Pointer); isPtr {
+				switch u.Elem().Underlying().(type) {
+				case *types.Pointer, *types.Map, *types.Interface, *types.Signature:
 					es = SRef
-				} else {
+				default:
 					panic("unsupported array element type " + typeKey(u.Elem()))
 				}
 			}
@@ -280,6 +345,13 @@ func build(t types.Type, get func(l leafSpec) *Term) Value {
 		case *types.Array:
 			if u.Len() == 0 {
 				return ArrayV{N: 0, Elem: u.Elem()}
+			}
+			if multiLeafArray(u) {
+				av := ArrayV{N: u.Len(), Elem: u.Elem()}
+				for i := int64(0); i < u.Len(); i++ {
+					av.Vals = append(av.Vals, rec(u.Elem(), fmt.Sprintf("%s[%d]", path, i)))
+				}
+				return av
 			}
 			es, ok := scalarSort(u.Elem())
 			if !ok {
@@ -343,6 +415,12 @@ func flatten(t types.Type, v Value, ptrConv func(PtrV) *Term) []*Term {
 			out = append(out, s.Ref, s.Off, s.Len, s.Cap)
 		case *types.Array:
 			if u.Len() == 0 {
+				return
+			}
+			if av := v.(ArrayV); av.Vals != nil {
+				for _, ev := range av.Vals {
+					rec(u.Elem(), ev)
+				}
 				return
 			}
 			out = append(out, v.(ArrayV).A)
